@@ -291,6 +291,9 @@ def _while_functions(mod):
     return out
 
 
+# Euclid's loop on big integers dominates exact linear algebra (millions of iterations in one knot_clean) and
+# always terminates; counting it would only force a useless large budget on the loops that can really hang
+STEP_EXEMPT = {"Math.gcd"}
 STEP_TOOL = 3
 REACH_TOOL = 4
 
@@ -338,7 +341,7 @@ def attach(budget=None, reach=True):
         for code in _function_code_objects(mod):
             if reach:
                 mon.set_local_events(REACH_TOOL, code, mon.events.PY_START)
-            if (code.co_name, code.co_firstlineno) in whiles:
+            if (code.co_name, code.co_firstlineno) in whiles and code.co_qualname not in STEP_EXEMPT:
                 mon.set_local_events(STEP_TOOL, code, mon.events.LINE)
                 S.loop_functions.append(code.co_qualname)
     # M1
